@@ -2,7 +2,7 @@
    from in-domain arguments is a well-formed message for the framing model, its commands decode
    to the encoder's arguments. *)
 From DS Require Import Base.Prelude Base.Bits Gen.AcmdTables Model.AcmdFrame.
-From DS Require Import Model.AcmdEncoder Proofs.AcmdFrameProofs.
+From DS Require Import Model.AcmdEncoder Model.AcmdTrackWire Proofs.AcmdFrameProofs.
 
 (* ------------------------------------------------------------------ slices of concatenations *)
 
@@ -303,4 +303,233 @@ Proof.
       change (256 ^ Z.of_nat 4) with (2 ^ 32); rewrite ?Lc; lia.
   - fold m in Hwf, Hm. rewrite <- Hm. apply (wf_executed st m bodies); assumption.
   - eapply Forall2_weaken; [|exact F]. intros c b (i & E & Hi). exists i. split; [exact E|exact Hi].
+Qed.
+
+(* ------------------------------------------------------------------ program-track commands *)
+
+Lemma int_le_enc4_signed t : - 2 ^ 31 <= t < 2 ^ 31 -> int_le (le_enc 4 (t mod 2 ^ 32)) = t.
+Proof.
+  intros H. set (u := t mod 2 ^ 32). assert (Hu : 0 <= u < 2 ^ 32) by (unfold u; lia).
+  unfold int_le. cbn [le_enc]. cbn [length]. change (8 * Z.of_nat 4) with 32.
+  change (u mod 256 :: u / 256 mod 256 :: u / 256 / 256 mod 256 :: [u / 256 / 256 / 256 mod 256])
+    with (le_enc 4 u).
+  rewrite le_dec_enc_small by (change (256 ^ Z.of_nat 4) with (2 ^ 32); lia).
+  unfold u. apply (to_of_signed 32 t); lia.
+Qed.
+
+Lemma skipn_app_len {A} (c rest : list A) n : n = length c -> skipn n (c ++ rest) = rest.
+Proof. intros ->. apply skipn_app_exact. Qed.
+
+(* the point sequence decodes to the points, whatever follows it *)
+Lemma dec_enc_entries es : forall seq rest, Forall entry_ok es -> enc_entries es = Some seq ->
+  dec_entries (length es) (seq ++ rest) = es.
+Proof.
+  induction es as [|[[t az] el] es IH]; intros seq rest Hok H; [reflexivity|].
+  inversion Hok as [|? ? He Hok']; subst. destruct He as (Ht & Haz & Hel).
+  cbn [enc_entries enc_entry] in H. unfold obind, enc_int4 in H.
+  destruct ((- 2 ^ 31 <=? t) && (t <? 2 ^ 31)) eqn:E; [|lia].
+  destruct (enc_entries es) as [bs|] eqn:Es; [|discriminate].
+  assert (Hs : seq = (le_enc 4 (t mod 2 ^ 32) ++ enc_real az ++ enc_real el) ++ bs) by congruence.
+  subst seq. clear H.
+  cbn [length dec_entries].
+  set (l4 := le_enc 4 (t mod 2 ^ 32)). set (a8 := enc_real az). set (e8 := enc_real el).
+  assert (H4 : length l4 = 4%nat) by apply le_enc_length.
+  assert (Ha : length a8 = 8%nat) by apply le_enc_length.
+  assert (He : length e8 = 8%nat) by apply le_enc_length.
+  replace (((l4 ++ a8 ++ e8) ++ bs) ++ rest) with (l4 ++ a8 ++ e8 ++ bs ++ rest)
+    by (rewrite <- !app_assoc; reflexivity).
+  f_equal; [f_equal; [f_equal|]|].
+  - replace 4%nat with (length l4) by exact H4. rewrite firstn_app_exact. apply int_le_enc4_signed, Ht.
+  - rewrite slice_app_r by lia. rewrite H4. cbn [Nat.sub].
+    rewrite slice_prefix by (symmetry; exact Ha). apply (enc_real_dec az Haz).
+  - rewrite slice_app_r by lia. rewrite H4. cbn [Nat.sub].
+    rewrite slice_app_r by lia. rewrite Ha. cbn [Nat.sub].
+    rewrite slice_prefix by (symmetry; exact He). apply (enc_real_dec el Hel).
+  - replace (l4 ++ a8 ++ e8 ++ bs ++ rest) with ((l4 ++ a8 ++ e8) ++ bs ++ rest)
+      by (rewrite <- !app_assoc; reflexivity).
+    rewrite skipn_app_len by (rewrite !app_length, H4, Ha, He; reflexivity).
+    apply IH; [assumption|reflexivity].
+Qed.
+
+(* a program-track command with 1..50 points: 42 + 20n bytes, a well-formed command for the
+   pointing subsystem, whose slices give back every argument *)
+Lemma enc_track_decodes next pid interp track load t0 raz rel entries :
+  in_domain (ETrack 5 pid interp track load t0 raz rel entries) -> 0 <= next < 2 ^ 32 ->
+  exists b, enc_cmd next (ETrack 5 pid interp track load t0 raz rel entries) = Some b /\
+    length b = (42 + 20 * length entries)%nat /\
+    dec_track b = mkTF next pid interp track load (Z.of_nat (length entries)) t0 raz rel entries /\
+    wf_cmd b /\ csub b = 5 /\ get_method b = Some (5, 4, b).
+Proof.
+  intros Hd Hn. cbn [in_domain] in Hd.
+  destruct Hd as (_ & Hpid & Hint & Htr & Hld & Ht0 & Hraz & Hrel & Hlen & Hent).
+  assert (H16 : forall v, u16 v -> 0 <= v < 256 ^ Z.of_nat 2) by (unfold u16; intros; cbn; lia).
+  assert (H32 : 0 <= next < 256 ^ Z.of_nat 4) by (change (256 ^ Z.of_nat 4) with (2 ^ 32); exact Hn).
+  assert (Hnn : u16 (Z.of_nat (length entries))) by (unfold u16; lia).
+  destruct (enc_entries_ok entries Hent) as [seq Hseq].
+  pose proof (enc_entries_length entries seq Hseq) as Lseq.
+  cbn [enc_cmd]. destruct entries as [|e0 es] eqn:Ee; [cbn in Hlen; lia|]. rewrite <- Ee in *.
+  unfold obind. rewrite Hseq.
+  rewrite !enc_uint_ok by (try (apply H16; unfold u16; lia); try exact H32; apply H16; assumption).
+  set (b1 := le_enc 2 4). set (b2 := le_enc 2 5). set (b3 := le_enc 4 next). set (b4 := le_enc 2 pid).
+  set (b5 := le_enc 2 interp). set (b6 := le_enc 2 track). set (b7 := le_enc 2 load).
+  set (b8 := le_enc 2 (Z.of_nat (length entries))).
+  set (r1 := enc_real t0). set (r2 := enc_real raz). set (r3 := enc_real rel).
+  assert (L1 : length b1 = 2%nat) by apply le_enc_length. assert (L2 : length b2 = 2%nat) by apply le_enc_length.
+  assert (L3 : length b3 = 4%nat) by apply le_enc_length. assert (L4 : length b4 = 2%nat) by apply le_enc_length.
+  assert (L5 : length b5 = 2%nat) by apply le_enc_length. assert (L6 : length b6 = 2%nat) by apply le_enc_length.
+  assert (L7 : length b7 = 2%nat) by apply le_enc_length. assert (L8 : length b8 = 2%nat) by apply le_enc_length.
+  assert (R1 : length r1 = 8%nat) by apply le_enc_length. assert (R2 : length r2 = 8%nat) by apply le_enc_length.
+  assert (R3 : length r3 = 8%nat) by apply le_enc_length.
+  set (b := b1 ++ b2 ++ b3 ++ b4 ++ b5 ++ b6 ++ b7 ++ b8 ++ r1 ++ r2 ++ r3 ++ seq).
+  assert (Lb : length b = (42 + 20 * length entries)%nat).
+  { unfold b. rewrite !app_length, L1, L2, L3, L4, L5, L6, L7, L8, R1, R2, R3, Lseq. lia. }
+  assert (S0 : slice 0 2 b = b1) by (unfold b; apply slice_prefix; symmetry; exact L1).
+  assert (S2 : slice 2 4 b = b2).
+  { unfold b. rewrite slice_app_r by lia. rewrite L1. apply slice_prefix. symmetry; exact L2. }
+  assert (S4 : slice 4 8 b = b3).
+  { unfold b. do 2 (rewrite slice_app_r by lia; rewrite ?L1, ?L2; cbn [Nat.sub]).
+    apply slice_prefix. symmetry; exact L3. }
+  assert (S8 : slice 8 10 b = b4).
+  { unfold b. do 3 (rewrite slice_app_r by lia; rewrite ?L1, ?L2, ?L3; cbn [Nat.sub]).
+    apply slice_prefix. symmetry; exact L4. }
+  assert (S10 : slice 10 12 b = b5).
+  { unfold b. do 4 (rewrite slice_app_r by lia; rewrite ?L1, ?L2, ?L3, ?L4; cbn [Nat.sub]).
+    apply slice_prefix. symmetry; exact L5. }
+  assert (S12 : slice 12 14 b = b6).
+  { unfold b. do 5 (rewrite slice_app_r by lia; rewrite ?L1, ?L2, ?L3, ?L4, ?L5; cbn [Nat.sub]).
+    apply slice_prefix. symmetry; exact L6. }
+  assert (S14 : slice 14 16 b = b7).
+  { unfold b. do 6 (rewrite slice_app_r by lia; rewrite ?L1, ?L2, ?L3, ?L4, ?L5, ?L6; cbn [Nat.sub]).
+    apply slice_prefix. symmetry; exact L7. }
+  assert (S16 : slice 16 18 b = b8).
+  { unfold b. do 7 (rewrite slice_app_r by lia; rewrite ?L1, ?L2, ?L3, ?L4, ?L5, ?L6, ?L7; cbn [Nat.sub]).
+    apply slice_prefix. symmetry; exact L8. }
+  assert (S18 : slice 18 26 b = r1).
+  { unfold b. do 8 (rewrite slice_app_r by lia; rewrite ?L1, ?L2, ?L3, ?L4, ?L5, ?L6, ?L7, ?L8; cbn [Nat.sub]).
+    apply slice_prefix. symmetry; exact R1. }
+  assert (S26 : slice 26 34 b = r2).
+  { unfold b. do 8 (rewrite slice_app_r by lia; rewrite ?L1, ?L2, ?L3, ?L4, ?L5, ?L6, ?L7, ?L8; cbn [Nat.sub]).
+    rewrite slice_app_r by lia. rewrite R1. cbn [Nat.sub]. apply slice_prefix. symmetry; exact R2. }
+  assert (S34 : slice 34 42 b = r3).
+  { unfold b. do 8 (rewrite slice_app_r by lia; rewrite ?L1, ?L2, ?L3, ?L4, ?L5, ?L6, ?L7, ?L8; cbn [Nat.sub]).
+    rewrite slice_app_r by lia. rewrite R1. cbn [Nat.sub].
+    rewrite slice_app_r by lia. rewrite R2. cbn [Nat.sub]. apply slice_prefix. symmetry; exact R3. }
+  assert (S42 : skipn 42 b = seq).
+  { unfold b.
+    replace (b1 ++ b2 ++ b3 ++ b4 ++ b5 ++ b6 ++ b7 ++ b8 ++ r1 ++ r2 ++ r3 ++ seq)
+      with ((b1 ++ b2 ++ b3 ++ b4 ++ b5 ++ b6 ++ b7 ++ b8 ++ r1 ++ r2 ++ r3) ++ seq)
+      by (rewrite <- !app_assoc; reflexivity).
+    apply skipn_app_len. rewrite !app_length, L1, L2, L3, L4, L5, L6, L7, L8, R1, R2, R3. reflexivity. }
+  assert (D8 : le_dec b8 = Z.of_nat (length entries)) by (apply le_dec_enc_small, H16, Hnn).
+  exists b. split; [reflexivity|]. split; [exact Lb|].
+  assert (Hid : uint_le (firstn 2 b) = Some 4).
+  { change (firstn 2 b) with (slice 0 2 b). rewrite S0. reflexivity. }
+  assert (Hsub : uint_le (slice 2 4 b) = Some 5) by (rewrite S2; reflexivity).
+  split; [|split; [|split]].
+  - unfold dec_track. rewrite S4, S8, S10, S12, S14, S16, S18, S26, S34, S42, D8, Nat2Z.id.
+    unfold b3, b4, b5, b6, b7, r1, r2, r3.
+    rewrite !le_dec_enc_small by (first [exact H32 | apply H16; assumption]).
+    rewrite (proj1 (enc_real_dec t0 Ht0)), (proj1 (enc_real_dec raz Hraz)), (proj1 (enc_real_dec rel Hrel)).
+    f_equal. rewrite <- (app_nil_r seq). apply dec_enc_entries; assumption.
+  - exists 4. unfold cmd_id. split; [exact Hid|]. right. split; [reflexivity|].
+    exists (Z.of_nat (length entries)). rewrite S16. split; [|split].
+    + rewrite uint_le_some by (intros E; assert (X : length b8 = 0%nat) by (rewrite E; reflexivity); lia).
+      rewrite D8. reflexivity.
+    + lia.
+    + rewrite Lb. consts. lia.
+  - unfold csub. rewrite S2. reflexivity.
+  - unfold get_method. rewrite Hid, Hsub. reflexivity.
+Qed.
+
+(* ------------------------------------------------------------------ every in-domain frame *)
+
+(* the command string decodes to the encoder's arguments (with the counter the loop assigned) *)
+Definition decodes (next : Z) (c : ecmd) (b : list Z) : Prop :=
+  match c with
+  | ETrack s pid interp track load t0 raz rel entries =>
+      dec_track b = mkTF next pid interp track load (Z.of_nat (length entries)) t0 raz rel entries
+  | _ => dec26 b = want26 next c
+  end.
+
+Lemma enc_cmd_facts next c : in_domain c -> 0 <= next < 2 ^ 32 ->
+  exists b, enc_cmd next c = Some b /\ wf_cmd b /\ csub b = esub c /\
+            get_method b = Some (esub c, ecid c, b) /\ (length b <= 1042)%nat /\ decodes next c b.
+Proof.
+  intros Hd Hn. destruct c as [s k p1 p2|s k p1 p2|s pid interp track load t0 raz rel entries].
+  - assert (Hd' : dom26 (EMode s k p1 p2)) by (split; [exact Hd|exact I]).
+    destruct (enc_cmd26' next _ Hd' Hn) as (b & E & L & D).
+    destruct (dec26_facts b _ next L D Hd') as (W & S & M).
+    exists b. repeat split; try assumption. lia.
+  - assert (Hd' : dom26 (EParam s k p1 p2)) by (split; [exact Hd|exact I]).
+    destruct (enc_cmd26' next _ Hd' Hn) as (b & E & L & D).
+    destruct (dec26_facts b _ next L D Hd') as (W & S & M).
+    exists b. repeat split; try assumption. lia.
+  - assert (Hs : s = 5) by (cbn [in_domain] in Hd; tauto). subst s.
+    destruct (enc_track_decodes next pid interp track load t0 raz rel entries Hd Hn)
+      as (b & E & L & D & W & S & M).
+    assert (Hlen : (length entries <= 50)%nat) by (cbn [in_domain] in Hd; tauto).
+    exists b. repeat split; try assumption. lia.
+Qed.
+
+Lemma enc_cmds_facts cmds : forall next, Forall in_domain cmds -> 0 <= next ->
+  next + Z.of_nat (length cmds) <= 2 ^ 32 ->
+  exists bodies, enc_cmds next cmds = Some bodies /\ length bodies = length cmds /\
+    Forall wf_cmd bodies /\ map csub bodies = map esub cmds /\
+    resolve bodies = Some (map (fun p : ecmd * list Z => (esub (fst p), ecid (fst p), snd p)) (combine cmds bodies)) /\
+    (length (concat bodies) <= 1042 * length cmds)%nat /\
+    Forall2 (fun c b => exists i, decodes (next + Z.of_nat i) c b /\ (i < length cmds)%nat) cmds bodies.
+Proof.
+  induction cmds as [|c cmds IH]; intros next Hd Hn Hl.
+  - exists []. cbn. repeat split; auto.
+  - inversion Hd as [|? ? Hc Hd']; subst. cbn [length] in Hl.
+    destruct (enc_cmd_facts next c Hc) as (b & Eb & Wb & Sb & Mb & Lb & Db); [lia|].
+    destruct (IH (next + 1) Hd') as (bs & Ebs & L1 & W & Sm & R & Lc & F); [lia|lia|].
+    exists (b :: bs). cbn [enc_cmds]. unfold obind. rewrite Eb, Ebs.
+    repeat split.
+    + cbn [length]. lia.
+    + constructor; assumption.
+    + cbn [map]. rewrite Sb, Sm. reflexivity.
+    + cbn [resolve combine map fst snd]. rewrite Mb, R. reflexivity.
+    + cbn [concat length]. rewrite app_length. lia.
+    + constructor.
+      * exists 0%nat. split; [rewrite Z.add_0_r; exact Db|cbn; lia].
+      * eapply Forall2_weaken; [|exact F]. intros c' b' (i & E & Hi). exists (S i). split; [|cbn [length]; lia].
+        replace (next + Z.of_nat (S i)) with (next + 1 + Z.of_nat i) by lia. exact E.
+Qed.
+
+(* C10 for the ACU: every frame the shipped encoders build from in-domain arguments *)
+Theorem encoded_frame_consumed_all st counter cmds :
+  Forall in_domain cmds -> NoDup (map esub cmds) ->
+  0 < counter -> counter + Z.of_nat (length cmds) < 2 ^ 32 ->
+  fidle st -> Some counter <> f_cnt st ->
+  exists m bodies,
+    enc_frame counter cmds = Some m /\ length bodies = length cmds /\
+    frun st m = (mkF [] 0 (Some counter) 0,
+                 repeat (OTrue, None) (length m - 1) ++
+                 [(OTrue, Some (map (fun p : ecmd * list Z => (esub (fst p), ecid (fst p), snd p))
+                                    (combine cmds bodies)))]) /\
+    Forall2 (fun c b => exists i, decodes (counter + 1 + Z.of_nat i) c b /\ (i < length cmds)%nat)
+            cmds bodies.
+Proof.
+  intros Hd Hnd Hc0 Hc Hidle Hprev.
+  destruct (enc_cmds_facts cmds (counter + 1) Hd) as (bodies & Eb & Lb & W & S & R & Lc & F); [lia|lia|].
+  assert (Hn3 : (length cmds <= 3)%nat).
+  { assert (Hin : forall x, In x (map esub cmds) -> In x [1; 2; 5]).
+    { intros x Hx. apply in_map_iff in Hx. destruct Hx as (c & <- & Hc').
+      rewrite Forall_forall in Hd. pose proof (Hd c Hc') as Hdom.
+      destruct c; cbn [in_domain esub] in *; destruct Hdom as (Hs & _); cbn; lia. }
+    pose proof (NoDup_incl_length Hnd Hin) as Hle. rewrite map_length in Hle. cbn in Hle. exact Hle. }
+  set (m := frame_of counter (Z.of_nat (length bodies)) bodies).
+  assert (Hf : fresh_subs [] bodies) by (apply fresh_of_nodup; cbn [app]; rewrite S; exact Hnd).
+  assert (H1 : resolve bodies <> None) by (rewrite R; discriminate).
+  assert (H2 : 0 <= counter < 2 ^ 32) by lia.
+  assert (H3 : Z.of_nat (length bodies) < 2 ^ 31) by lia.
+  assert (H4 : 20 + Z.of_nat (length (concat bodies)) < 2 ^ 32) by lia.
+  destruct (frame_wf (f_cnt st) counter bodies W Hf H1 H2 Hprev H3 H4) as [Hwf Hm].
+  exists m, bodies. split; [|split; [exact Lb|split; [|]]].
+  - unfold enc_frame. destruct (Z.eqb_spec counter 0); [lia|]. unfold obind. rewrite Eb.
+    rewrite !enc_uint_ok; [unfold m, frame_of; rewrite Lb; reflexivity| | |];
+      change (256 ^ Z.of_nat 4) with (2 ^ 32); lia.
+  - fold m in Hwf, Hm. rewrite <- Hm. apply (wf_executed st m bodies); assumption.
+  - exact F.
 Qed.
